@@ -479,7 +479,18 @@ def r03_7(ctx: Ctx):
 
 
 def check(ctx: Ctx):
-    for rid, fn in (('R-LINK', r_link), ('R03.1', r03_1), ('R03.2', r03_2), ('R03.3', r03_3), ('R03.4', r03_4),
+    if C.want(ctx, 'R-LINK'):
+        r_link(ctx)
+    cands = C.roles_of(ctx).task_wrapper_candidates()
+    if len(cands) > 1:
+        ctx.rule('R03.2', 'who may evaluate: on the global path only the task wrapper dispatches to Problem.Calculate')
+        for c in cands:
+            ctx.fail('R03.2', c.short, c.loc(),
+                     f'{len(cands)} routines reachable from the iteration driver dispatch to Problem.Calculate '
+                     f'({[x.short for x in cands]}): evaluations made by all but one of them are not counted, not '
+                     f'recorded and not bounded by the budget', key=f'R03.2::{c.short}::evaluator')
+        return
+    for rid, fn in (('R03.1', r03_1), ('R03.2', r03_2), ('R03.3', r03_3), ('R03.4', r03_4),
                     ('R03.5', r03_5), ('R03.6', r03_6), ('R03.7', r03_7)):
         if C.want(ctx, rid):
             fn(ctx)
